@@ -63,6 +63,20 @@ def scope_primitives(F):
             if p.endswith("IndexMut::index_mut") or p.endswith("::index_mut"):
                 eff.add("write-any")
         prims[n] = eff
+    # a method that calls another method of Scope (a private helper such as `with_top_context(|c| ..)`) has that method's effects too
+    changed = True
+    rounds = 0
+    while changed and rounds < 5:
+        changed = False
+        rounds += 1
+        for n, b in F.bodies.items():
+            if n not in prims:
+                continue
+            for bi, c in F.body_calls(b):
+                p = c["f"].get("p") or ""
+                if p in prims and p != n and not prims[p] <= prims[n]:
+                    prims[n] |= prims[p]
+                    changed = True
     return prims
 
 
